@@ -87,3 +87,22 @@ func VerifGenerations(m *Manager) (live, standby *UserManager, liveNS, standbyNS
 	}
 	return live, standby, names(m.namespaces[current]), names(m.namespaces[other]), m.reloadPrepared.Get()
 }
+
+// VerifPipeSession builds a Session the way newSession does (minus the *net.TCPConn specifics)
+// on connection c, attached to a minimal Server (version string and proxy config only), so that
+// the real Session.Handshake can be run on it. It returns the salt of the greeting as well.
+func VerifPipeSession(m *Manager, c net.Conn) (*Session, []byte) {
+	srv := &Server{manager: m, ServerVersion: "5.7.25-gaea", ServerConfig: &models.Proxy{}}
+	cc := VerifHandshakeSession(m, c)
+	cc.proxy = srv
+	cc.c.proxy = srv
+	cc.executor.clientAddr = c.RemoteAddr().String()
+	return cc, append([]byte(nil), cc.c.salt...)
+}
+
+// VerifHandshake runs the real Session.Handshake (greeting, blocking read of the response,
+// handleHandshakeResponse, IsAllowConnect, connection limit, OK packet).
+func VerifHandshake(cc *Session) error {
+	_, err := cc.Handshake()
+	return err
+}
